@@ -217,14 +217,20 @@ Closure(fs, S, follow, n) ==
    LET step == S \cup UNION {Sub(fs, x) : x \in {y \in S : IsDir(fs, y)}}
                \cup (IF follow THEN {fs[x].t : x \in {y \in S : IsLink(fs, y) /\ Exists(fs, fs[y].t)}} ELSE {})
    IN IF step = S \/ n = 0 THEN S ELSE Closure(fs, step, follow, n - 1)
+RECURSIVE LinkChain(_, _, _)      \* a followed link stands for whatever its chain of links ends at
+LinkChain(fs, S, n) == LET step == S \cup {fs[x].t : x \in {y \in S : IsLink(fs, y) /\ Exists(fs, fs[y].t)}} IN
+                       IF step = S \/ n = 0 THEN S ELSE LinkChain(fs, step, n - 1)
 Visit(fs, p, recursive, follow) ==
    IF recursive THEN Closure(fs, {p}, follow, 8)
-   ELSE IF follow /\ IsLink(fs, p) /\ Exists(fs, fs[p].t) THEN {p, fs[p].t} ELSE {p}
+   ELSE IF follow THEN LinkChain(fs, {p}, 8) ELSE {p}
 
+HasChain(fs, V) == \E x \in V : IsLink(fs, x) /\ Exists(fs, fs[x].t) /\ IsLink(fs, fs[x].t)
 \* co = [dm, fm (0 = unset), sym (char seq), recursive, follow]; SymOf(kind, mode, sym) from ChmodSym
 ChmodTargets(fs, p, co) == {x \in Visit(fs, p, co.recursive, co.follow) : ~IsLink(fs, x)}
 Op_chown_b(st, p, co) == LET fs == st.fs IN
   IF ~Exists(fs, p) THEN R(st, RErr("Path::DoesNotExist"))
+  ELSE IF co.follow /\ HasChain(fs, Visit(fs, p, co.recursive, TRUE))
+       THEN [st |-> st, res |-> RAny, alt |-> {}, partial |-> TRUE, paired |-> FALSE]
   ELSE LET V == Visit(fs, p, co.recursive, co.follow)
            Set(n) == [n EXCEPT !.uid = IF co.setu THEN co.uid ELSE @, !.gid = IF co.setg THEN co.gid ELSE @]
            \* with follow the links on the way are stepping stones: whether their own owner changes is not settled (wildcard)
@@ -273,6 +279,8 @@ Op_chmod_b(st, p, co) == LET fs == st.fs IN
   ELSE IF SymUsed(co) /\ ~CS!WellFormed(CS!Clauses(co.sym)[1]) THEN R(st, RErrAny)       \* C11: first clause malformed -> error, nothing changes
   ELSE IF SymUsed(co) /\ \E i \in 2..Len(CS!Clauses(co.sym)) : ~CS!WellFormed(CS!Clauses(co.sym)[i])
        THEN [st |-> st, res |-> RAny, alt |-> {}, partial |-> TRUE, paired |-> FALSE]     \* later clause malformed: not settled
+  ELSE IF co.follow /\ HasChain(fs, Visit(fs, p, co.recursive, TRUE))
+       THEN [st |-> st, res |-> RAny, alt |-> {}, partial |-> TRUE, paired |-> FALSE]     \* following a link to a link: how far, and whether the walk recurses below the final target, is not settled
   ELSE LET T == ChmodTargets(fs, p, co) IN
        R(WithFs(st, [q \in DOMAIN fs |-> IF q \in T THEN [fs[q] EXCEPT !.mode = NewMode(fs[q], co)] ELSE fs[q]]), ROk(Unit))
 
